@@ -1,6 +1,8 @@
 -- DRIVER: extraf Pms.ExtraDriver.handleExtraF
+-- DRIVER: filonf Pms.ExtraDriver.handleFilonF
 import Pms.Model.Io
 import Pms.Gen.ExtraF
+import Pms.Gen.FilonF
 /-! Driver op evaluating the regenerated Float terms of `translator/gens/extra.py` (numeric validation of the translation). -/
 namespace Pms.ExtraDriver
 open Pms.Io Pms.Gen.ExtraF
@@ -19,6 +21,33 @@ def handleExtraF (toks : List String) : Option String := do
     | "area", [a, b, c] => pure (showFloat (tr_rad (tr_p a b c) a b c))
     | "leg", [x, nd] => pure (showFloat (legendre2 x nd))
     | _, _ => none
+  | _ => none
+
+/-- `Filon_COS` at one frequency (before `/= np.pi`), assembled from the regenerated Float terms exactly like `Pms.Filon.value`:
+samples C_0 … C_2m, time step dt, first and last time -/
+def filonValue (C : Array Float) (dt ω t0 tl : Float) : Float :=
+  let n := C.size
+  let θ := ω * dt
+  let θ2 := θ * θ
+  let θ3 := θ * θ2
+  let a := if θ == 0 then Gen.FilonF.alpha0 else Gen.FilonF.alpha θ θ2 θ3
+  let b := if θ == 0 then Gen.FilonF.beta0 else Gen.FilonF.beta θ θ2 θ3
+  let g := if θ == 0 then Gen.FilonF.gamma0 else Gen.FilonF.gamma θ θ2 θ3
+  let term := fun (i : Nat) => C[i]! * Float.cos (ω * i.toFloat * dt)
+  let ev := (List.range ((n + 1) / 2)).foldl (fun acc k => acc + term (2 * k)) 0.0
+  let od := (List.range ((n - 1) / 2)).foldl (fun acc k => acc + term (2 * k + 1)) 0.0
+  let cl := C[n - 1]!
+  let c0 := C[0]!
+  Gen.FilonF.comb dt a b g cl c0 (Float.sin (ω * tl)) (Float.sin (ω * t0))
+    (ev - Gen.FilonF.endCorr cl c0 (Float.cos (ω * tl)) (Float.cos (ω * t0))) od
+
+/-- `filonf dt omega t0 tlast C_0 … C_2m` (floats as raw bits) → value -/
+def handleFilonF (toks : List String) : Option String := do
+  let v ← toks.mapM parseFloatBits
+  match v with
+  | dt :: ω :: t0 :: tl :: cs =>
+    if cs.length % 2 == 0 || cs.length < 3 then none
+    else pure (showFloat (filonValue cs.toArray dt ω t0 tl))
   | _ => none
 
 end Pms.ExtraDriver
